@@ -896,6 +896,9 @@ func runStorage(profile string, seed int64, histories, steps int, out *Emitter) 
 			rg.NamesList = []rnstypes.Names{{Name: "alice", Tld: "jkl", Expires: 1 << 40, Value: users[1].String(), Data: "{}", Subdomains: []*rnstypes.Names{}}}
 			gs[rnstypes.ModuleName] = cdc.MustMarshalJSON(rg)
 		}
+		if hi%2 == 1 {
+			genesisPoorUsers = 1 // an account that can afford small prices only: transfers that fail half-way through a handler
+		}
 		c := NewChain(mix.users, []string{"ujkl", "utest"}, mut)
 		seenGaugeAccs = nil
 		g := &storageGen{c: c, r: r, data: map[string]*dataFile{}, mix: mix, qr: rand.New(rand.NewSource(seed*7919 + int64(hi) + 17)), noGauges: noGauges}
